@@ -39,7 +39,7 @@ def confirm(seedroot, sid, var, base_pass):
     wt = os.path.join(ROOT, f"{sid}-{var}")
     res = {"seed": f"{sid}/{var}", "dir": d, "demo_dir": dest, "demo_test_cmd": t}
     sh(f"git -C /repo worktree remove --force {wt}", "/", 60)
-    rc, out = sh(f"git -C /repo worktree add -q --detach {wt} HEAD", "/")
+    rc, out = sh(f"git -C /repo worktree add -q --detach {wt} {os.environ.get('CONFIRM_BASE', 'HEAD')}", "/")
     try:
         rc, out = sh(f"git apply {os.path.join(d, 'patch.diff')}", wt)
         res["applies"] = rc == 0
@@ -83,7 +83,7 @@ def main():
     os.makedirs(os.path.join(ROOT, "results"), exist_ok=True)
     bwt = os.path.join(ROOT, "baseline")
     sh(f"git -C /repo worktree remove --force {bwt}", "/", 60)
-    sh(f"git -C /repo worktree add -q --detach {bwt} HEAD", "/")
+    sh(f"git -C /repo worktree add -q --detach {bwt} {os.environ.get('CONFIRM_BASE', 'HEAD')}", "/")
     base = suite(bwt)
     sh(f"git -C /repo worktree remove --force {bwt}", "/", 60)
     print("baseline passing tests:", len(base), flush=True)
